@@ -16,6 +16,13 @@ import ModVerif.Proofs.GoRtLemmasTile
 namespace ModVerif.GoRtNote
 open ModVerif ModVerif.GoRt
 
+/-- decidable equality of results of generated code, so that concrete instances close by kernel evaluation -/
+instance instDecidableEqM {α : Type} [DecidableEq α] : DecidableEq (M α)
+  | .ok a, .ok b => if h : a = b then isTrue (by rw [h]) else isFalse (by intro e; cases e; exact h rfl)
+  | .error a, .error b => if h : a = b then isTrue (by rw [h]) else isFalse (by intro e; cases e; exact h rfl)
+  | .ok _, .error _ => isFalse (by intro e; cases e)
+  | .error _, .ok _ => isFalse (by intro e; cases e)
+
 /-! ### decimal text -/
 
 /-- `strconv.Itoa` / `%d` / `strconv.FormatInt(·, 10)` of any integer -/
